@@ -5,10 +5,13 @@ Theorems about `Model/Listen.lean` (Speaker.listen / _bisect / Listener.check / 
 interleaving of `iter`), for an ARBITRARY watched quantity `f : Int → Int`, arbitrary guards and
 labels, arbitrary listener lists and arbitrary sample sequences (dates are integer µs), and about
 the listener classes of `Model/ListenKinds.lean`, whose watched quantity / guard / label are
-re-translated from beyond/propagators/listeners.py on every run (`Generated/ListenSrc.lean`).
+re-translated from beyond/propagators/listeners.py on every run (`Generated/ListenSrc.lean`); about
+`TopocentricFrame.visibility` (listeners with and without a frame of their own), `events_iterator` / `find_event`;
+and, over ℝ, about `LightListener.__call__` as translated from the source by py2lean (`Generated/LightSrcR.lean`).
 -/
 import BeyondVerif.Lemmas.Listen
 import BeyondVerif.Model.ListenKinds
+import BeyondVerif.Generated.LightSrcR
 namespace BeyondVerif.C10
 open BeyondVerif.Listen
 
@@ -240,6 +243,30 @@ theorem listenU_times (ls : List Lst) (p : Option Int) (t : Int) :
 theorem listen_exact (ls : List Lst) (p : Option Int) (t : Int) (h : ∀ e ∈ rawEventsU ls 0 p t, e.t ≠ t) :
     listenU ls p t = (sortDir (backwardU p t) (rawEventsU ls 0 p t)).map (fun e => ⟨e.t, some (e.idx, e.label)⟩) ++ [⟨t, none⟩] := by
   simp [listenU, alias_id h]
+
+/-- **simultaneous events keep the order of the `listeners` list.**  The results of one `listen` call are sorted by
+date in the direction of the iteration, and results with the SAME date come in the order in which their listeners stand
+in the `listeners` list — forward and backward alike (`sorted` is stable, also with `reverse=True`).  So the position of
+every event item of a block is determined by (date, listener index) alone. -/
+theorem simultaneous_events_in_listener_order (ls : List Lst) (p : Option Int) (t : Int) :
+    (sortDir false (rawEventsU ls 0 p t)).Pairwise lexAsc ∧ (sortDir true (rawEventsU ls 0 p t)).Pairwise lexDesc :=
+  ⟨stable_sortEv _ (event_unique ls 0 p t), stable_sortEvDesc _ (event_unique ls 0 p t)⟩
+
+/-- the same on the block as `iter` yields it (no result being the sample object itself): the event items are the
+results in (date, listener index) order — ascending dates forward, descending dates backward — then the sample. -/
+theorem listen_block_order (ls : List Lst) (p : Option Int) (t : Int) (h : ∀ e ∈ rawEventsU ls 0 p t, e.t ≠ t) :
+    ∃ evs : List Ev, listenU ls p t = evs.map (fun e => ⟨e.t, some (e.idx, e.label)⟩) ++ [⟨t, none⟩] ∧
+      evs.Perm (rawEventsU ls 0 p t) ∧
+      (backwardU p t = false → evs.Pairwise lexAsc) ∧ (backwardU p t = true → evs.Pairwise lexDesc) := by
+  refine ⟨sortDir (backwardU p t) (rawEventsU ls 0 p t), listen_exact ls p t h, perm_sortDir _ _, ?_, ?_⟩
+  · intro hb; rw [hb]; exact (simultaneous_events_in_listener_order ls p t).1
+  · intro hb; rw [hb]; exact (simultaneous_events_in_listener_order ls p t).2
+
+/-- two listeners with the same watched quantity fire at the same date: listener 0 first, forward and backward -/
+example : listenU [⟨fun t => t - 500, fun _ _ => true, fun _ _ => "a"⟩, ⟨fun t => t - 500, fun _ _ => true, fun _ _ => "b"⟩] (some 0) 1000
+    = [⟨500, some (0, "a")⟩, ⟨500, some (1, "b")⟩, ⟨1000, none⟩] ∧
+  listenU [⟨fun t => t - 500, fun _ _ => true, fun _ _ => "a"⟩, ⟨fun t => t - 500, fun _ _ => true, fun _ _ => "b"⟩] (some 1000) 0
+    = [⟨500, some (0, "a")⟩, ⟨500, some (1, "b")⟩, ⟨0, none⟩] := by constructor <;> decide +kernel
 
 theorem rawEventsU_none (ls : List Lst) (i : Nat) (t : Int) : rawEventsU ls i none t = [] := by
   induction ls generalizing i with
@@ -602,17 +629,21 @@ example : check (mkLst .max ⟨fun _ => 5, fun t => 500 - t, fun _ => 0, fun _ =
 
 /-! ## `TopocentricFrame.visibility` -/
 
-/-- **visibility_stream_spec.**  An element of the iteration stream (user listeners followed by the station's own
-AOS/LOS, MAX and — with a mask — mask listeners) is yielded by `visibility` **iff** its elevation is not negative or its
-`event` is an instance of an event class of the station's own listeners; order and multiplicity are those of the
-iteration stream (`visibility` is a `filter` of it). -/
-theorem visibility_stream_spec (user : List (Kind × Chan)) (sta : Chan) (hasMask events : Bool)
+/-- **visibility_stream_spec.**  An element of the iteration stream (the caller's listeners — each with a frame of its
+own or created with `frame=None` — followed by the station's own AOS/LOS, MAX and, with a mask, mask listeners) is yielded
+by `visibility` **iff** its elevation is not negative or its `event` is an instance of an event class of the station's own
+listeners; order and multiplicity are those of the iteration stream (`visibility` is a `filter` of it), and that iteration
+stream is the one `orb.iter` produces on its own with the same listeners: being inside `visibility` changes nothing for
+any listener, with or without a frame.
+(Until fix d3db55e the last part was false of the code for `frame=None` listeners — `visibility` re-framed each point in
+place while it was still `listener.prev` — and this theorem was stated for listeners with an explicit frame only.) -/
+theorem visibility_stream_spec (own : Chan) (user : List Spec) (sta : Chan) (hasMask events : Bool)
     (st : List (Option Int)) (samples : List Int) :
     let sk := if events then stationKinds hasMask else []
-    let all := user ++ sk.map (fun k => (k, sta))
-    let stream := iter (all.map (fun kc => mkLst kc.1 kc.2)) st samples
-    (visibility user sta hasMask events st samples).Sublist stream ∧
-    ∀ it, it ∈ visibility user sta hasMask events st samples ↔
+    let all := visListeners user sta hasMask events
+    let stream := iterS own all st samples
+    (visibility own user sta hasMask events st samples).Sublist stream ∧
+    ∀ it, it ∈ visibility own user sta hasMask events st samples ↔
       it ∈ stream ∧ (0 ≤ sta.phi it.t ∨ ∃ i lab kc, it.ev = some (i, lab) ∧ all[i]? = some kc ∧ passes sk kc.1 = true) := by
   intro sk all stream
   refine ⟨List.filter_sublist, fun it => ?_⟩
@@ -628,7 +659,7 @@ theorem visibility_stream_spec (user : List (Kind × Chan)) (sta : Chan) (hasMas
       cases hk : all[i]? with
       | none =>
         have hk' := hk
-        simp only [all, sk] at hk'
+        simp only [all] at hk'
         simp only [hk']
         constructor
         · intro h; cases h
@@ -636,7 +667,7 @@ theorem visibility_stream_spec (user : List (Kind × Chan)) (sta : Chan) (hasMas
           cases he; rw [hk] at hk2; cases hk2
       | some kc =>
         have hk' := hk
-        simp only [all, sk] at hk'
+        simp only [all] at hk'
         simp only [hk']
         constructor
         · intro h; exact ⟨i, lab, kc, rfl, hk, h⟩
@@ -644,6 +675,40 @@ theorem visibility_stream_spec (user : List (Kind × Chan)) (sta : Chan) (hasMas
           cases he; rw [hk] at hk2; cases hk2; exact h
   · have hp : 0 ≤ sta.phi it.t := by omega
     simp [hphi, hp]
+
+/-- **frame-less listeners** (`NodeListener()`, `ApsideListener()`, `AnomalyListener(v)`: `frame=None`, "the frame is
+unchanged").  In `iter` and inside `visibility` alike such a listener is indistinguishable from the same listener
+created with the frame the propagator yields its states in: it reads `listener.prev` and the new state — and every
+state `_bisect` propagates — in that one frame, whatever the station's frame is. -/
+theorem frameless_reads_own_frame (own : Chan) (k : Kind) (pre post : List Spec) (sta : Chan) (hasMask events : Bool)
+    (st : List (Option Int)) (samples : List Int) :
+    iterS own (pre ++ (k, none) :: post) st samples = iterS own (pre ++ (k, some own) :: post) st samples ∧
+    visibility own (pre ++ (k, none) :: post) sta hasMask events st samples =
+      visibility own (pre ++ (k, some own) :: post) sta hasMask events st samples := by
+  have hl : ∀ tail : List Spec, (pre ++ (k, none) :: tail).map (Spec.lst own) = (pre ++ (k, some own) :: tail).map (Spec.lst own) := by
+    intro tail; simp [Spec.lst, Spec.chan]
+  have hk : ∀ (tail : List Spec) (i : Nat),
+      ((pre ++ (k, none) :: tail)[i]?).map Prod.fst = ((pre ++ (k, some own) :: tail)[i]?).map Prod.fst := by
+    intro tail i
+    rw [← List.getElem?_map, ← List.getElem?_map]; simp
+  refine ⟨by simp [iterS, hl], ?_⟩
+  unfold visibility iterS visListeners
+  simp only [List.append_assoc, List.cons_append, hl]
+  apply List.filter_congr
+  intro it _
+  cases hev : it.ev with
+  | none => rfl
+  | some x =>
+    obtain ⟨i, lab⟩ := x
+    have := hk (post ++ (if events then stationKinds hasMask else []).map (fun k => (k, some sta))) i
+    simp only
+    cases h1 : (pre ++ (k, none) :: (post ++ (if events then stationKinds hasMask else []).map (fun k => (k, some sta))))[i]? <;>
+    cases h2 : (pre ++ (k, some own) :: (post ++ (if events then stationKinds hasMask else []).map (fun k => (k, some sta))))[i]? <;>
+    simp_all
+
+example : (visibility ⟨fun _ => 0, fun _ => 0, fun t => t - 500, fun _ => 0, 0⟩ [(.apside, none)]
+    ⟨fun _ => 1, fun _ => 0, fun _ => -5, fun _ => 0, 0⟩ false true [none, none, none] [0, 1000]) =
+      [⟨0, none⟩, ⟨500, some (0, "Periapsis")⟩, ⟨1000, none⟩] := by decide +kernel
 
 /-- which events pass the horizon filter: exactly those of AOS/LOS, mask and MAX listeners (the station's own event
 classes and their subclasses — `MaskEvent` is a `SignalEvent`); node, apsis, light, terminator, anomaly and radial
@@ -661,7 +726,154 @@ theorem passes_spec (hasMask : Bool) (k : Kind) :
 theorem stationKinds_spec : stationKinds false = [.signal, .max] ∧ stationKinds true = [.signal, .max, .mask] := by
   constructor <;> decide
 
-example : (visibility [(.node, ⟨fun t => t - 500, fun _ => 1, fun _ => 0, fun _ => 0, 0⟩)]
+example : (visibility ⟨fun _ => 0, fun _ => 0, fun _ => 0, fun _ => 0, 0⟩
+    [(.node, some ⟨fun t => t - 500, fun _ => 1, fun _ => 0, fun _ => 0, 0⟩)]
     ⟨fun _ => -1, fun _ => 0, fun _ => 0, fun _ => 0, 0⟩ false true [none, none, none] [0, 1000]) = [] := by decide +kernel
+
+/-! ## `events_iterator`, `find_event` -/
+
+/-- **events_iterator_spec.**  `events_iterator(stream, *labels)` is the stream restricted (order and multiplicity kept)
+to the items that carry an event whose label is one of `labels` — to all items carrying an event when no label is given. -/
+theorem events_iterator_spec (labels : List String) (s : List Item) :
+    (eventsIterator labels s).Sublist s ∧
+    ∀ it, it ∈ eventsIterator labels s ↔ it ∈ s ∧ ∃ i lab, it.ev = some (i, lab) ∧ (labels = [] ∨ lab ∈ labels) := by
+  refine ⟨List.filter_sublist, fun it => ?_⟩
+  simp only [eventsIterator, List.mem_filter]
+  refine and_congr_right (fun _ => ?_)
+  unfold wanted
+  cases h : it.ev with
+  | none => simp
+  | some x =>
+    obtain ⟨i, lab⟩ := x
+    cases labels <;> simp
+
+theorem filter_getElem?_split {α : Type} (P : α → Bool) (s : List α) (n : Nat) (x : α)
+    (h : (s.filter P)[n]? = some x) : ∃ pre post, s = pre ++ x :: post ∧ P x = true ∧ (pre.filter P).length = n := by
+  induction s generalizing n with
+  | nil => simp at h
+  | cons a s ih =>
+    by_cases ha : P a = true
+    · rw [List.filter_cons_of_pos ha] at h
+      cases n with
+      | zero =>
+        simp at h; subst h
+        exact ⟨[], s, rfl, ha, rfl⟩
+      | succ k =>
+        simp at h
+        obtain ⟨pre, post, rfl, hx, hl⟩ := ih k (by simpa using h)
+        exact ⟨a :: pre, post, rfl, hx, by simp [List.filter_cons_of_pos ha, hl]⟩
+    · rw [List.filter_cons_of_neg ha] at h
+      obtain ⟨pre, post, rfl, hx, hl⟩ := ih n h
+      exact ⟨a :: pre, post, rfl, hx, by simp [List.filter_cons_of_neg ha, hl]⟩
+
+/-- **find_event_spec.**  `find_event(stream, label, offset)` returns an item of the stream that carries an event with
+exactly that label and is preceded in the stream by exactly `offset` such items (for `offset = 0`: the first one); it
+raises `RuntimeError` **iff** `offset` is negative or the stream holds at most `offset` such items. -/
+theorem find_event_spec (s : List Item) (label : String) (offset : Int) :
+    (∀ it, findEvent s label offset = some it →
+      ∃ pre post i, s = pre ++ it :: post ∧ it.ev = some (i, label) ∧ ((eventsIterator [label] pre).length : Int) = offset) ∧
+    (findEvent s label offset = none ↔ offset < 0 ∨ ((eventsIterator [label] s).length : Int) ≤ offset) := by
+  constructor
+  · intro it h
+    unfold findEvent at h
+    split at h
+    · cases h
+    · rename_i hoff
+      obtain ⟨pre, post, hs, hw, hl⟩ := filter_getElem?_split _ _ _ _ h
+      have hev : ∃ i, it.ev = some (i, label) := by
+        unfold wanted at hw
+        cases hx : it.ev with
+        | none => rw [hx] at hw; cases hw
+        | some x =>
+          obtain ⟨i, lab⟩ := x
+          rw [hx] at hw
+          simp at hw
+          exact ⟨i, by rw [hw]⟩
+      obtain ⟨i, hi⟩ := hev
+      refine ⟨pre, post, i, hs, hi, ?_⟩
+      unfold eventsIterator
+      rw [hl]; omega
+  · unfold findEvent
+    split
+    · rename_i hoff; simp [hoff]
+    · rename_i hoff
+      rw [List.getElem?_eq_none_iff]
+      constructor
+      · intro h; right; omega
+      · rintro (h | h)
+        · omega
+        · omega
+
+example : findEvent (iter [⟨fun t => t - 700, fun _ _ => true, fun _ _ => "x"⟩] [none] [0, 1000, 2000]) "x" 0 = some ⟨700, some (0, "x")⟩ ∧
+    findEvent (iter [⟨fun t => t - 700, fun _ _ => true, fun _ _ => "x"⟩] [none] [0, 1000, 2000]) "x" 1 = none := by
+  constructor <;> decide +kernel
+
+/-! ## `LightListener.__call__` as a function of the geometry (formulas translated from the source on every run) -/
+
+open BeyondVerif.NumReal in
+/-- **the watched quantity of `LightListener` is ±1**, never zero: for this listener the three-valued sign of
+`Listener.check` is two-valued, so the "exact zero at a sample ⇒ two events" situation of `C10W.exact_zero_at_sample_two_events`
+cannot arise, and `label_light`'s hypotheses `f ≠ 0` always hold. -/
+theorem light_value_pm_one (pen : Bool) (rsun rbody nsun nsat dot : ℝ) :
+    R.lightValue pen rsun rbody nsun nsat dot = -1 ∨ R.lightValue pen rsun rbody nsun nsat dot = 1 := by
+  unfold R.lightValue
+  dsimp only
+  split_ifs <;> simp
+
+open BeyondVerif.NumReal in
+/-- **umbra ⊆ penumbra**: wherever the umbra listener reports shadow, the penumbra listener does too (same geometry). -/
+theorem umbra_inside_penumbra (rsun rbody nsun nsat dot : ℝ)
+    (h : R.lightValue false rsun rbody nsun nsat dot = -1) : R.lightValue true rsun rbody nsun nsat dot = -1 := by
+  unfold R.lightValue at h ⊢
+  dsimp only at h ⊢
+  split_ifs at h ⊢ <;> first | rfl | contradiction | (exfalso; norm_num at h)
+
+/-- the bound on the distance to the shadow axis for a cone of half-angle `arcsin s` tangent to a sphere of radius `rbody`,
+at the distance `h` behind the centre (`sign = 1`: the cone opens away from the Sun — penumbra; `sign = -1`: it closes — umbra):
+`tan α · (rbody / sin α ± h)` with `sin α = s`. -/
+noncomputable def coneBound (s rbody h sign : ℝ) : ℝ := s / Real.sqrt (1 - s ^ 2) * (rbody / s + sign * h)
+
+open BeyondVerif.NumReal in
+/-- **light_geometry.**  With `d = |x_sun|`, `r = |x_sat|`, `x_sun · x_sat = dot` (Cauchy–Schwarz: `|dot| ≤ d r`) and the Sun
+larger than the body but smaller than its distance, the listener reports shadow (−1) **iff** the satellite is on the
+night side (`dot < 0`), its distance `r √(1 − c²)` to the Sun–body axis (`c` the cosine of the angle at the body between the
+anti-Sun direction and the satellite) is within the cone bound at its distance `h = r c` behind the body, for the cone that
+opens away from the Sun, and — for the umbra type — also within the bound of the cone that closes behind the body.
+BOTH cones have `sin α = (R_sun − R_body) / d` in the code (the true penumbra cone has `(R_sun + R_body) / d`: open
+finding C10-penumbra-half-angle, `C10W.penumbra_half_angle_witness`). -/
+theorem light_geometry (pen : Bool) (rsun rbody d r dot : ℝ) (hd : 0 < d) (hr : 0 < r)
+    (hcs : |dot| ≤ d * r) (hs0 : 0 < rsun - rbody) (hs1 : rsun - rbody < d) :
+    let s := (rsun - rbody) / d
+    let c := -dot / (d * r)
+    R.lightValue pen rsun rbody d r dot = -1 ↔
+      dot < 0 ∧ r * Real.sqrt (1 - c ^ 2) ≤ coneBound s rbody (r * c) 1 ∧
+        (pen = true ∨ r * Real.sqrt (1 - c ^ 2) ≤ coneBound s rbody (r * c) (-1)) := by
+  intro s c
+  have hdr : 0 < d * r := mul_pos hd hr
+  have hc1 : -1 ≤ c := by
+    show -1 ≤ -dot / (d * r)
+    rw [le_div_iff₀ hdr]; have := abs_le.1 hcs; linarith [this.2]
+  have hc2 : c ≤ 1 := by
+    show -dot / (d * r) ≤ 1
+    rw [div_le_iff₀ hdr]; have := abs_le.1 hcs; linarith [this.1]
+  have hsl : -1 ≤ s := by
+    have : 0 < s := div_pos hs0 hd
+    linarith
+  have hsu : s ≤ 1 := by
+    show (rsun - rbody) / d ≤ 1
+    rw [div_le_iff₀ hd]; linarith
+  unfold R.lightValue
+  simp only [NumReal.asin, NumReal.acos, NumReal.sin, NumReal.cos, NumReal.tan]
+  rw [show (rsun - rbody) / d = s from rfl, show -dot / (d * r) = c from rfl]
+  simp only [Real.sin_arcsin hsl hsu, Real.tan_arcsin, Real.cos_arccos hc1 hc2, Real.sin_arccos]
+  unfold coneBound
+  simp only [one_mul, neg_one_mul, ← sub_eq_add_neg]
+  by_cases h1 : dot < 0
+  · by_cases h2 : r * Real.sqrt (1 - c ^ 2) ≤ s / Real.sqrt (1 - s ^ 2) * (rbody / s + r * c)
+    · by_cases h3 : r * Real.sqrt (1 - c ^ 2) ≤ s / Real.sqrt (1 - s ^ 2) * (rbody / s - r * c)
+      · cases pen <;> norm_num [h1, h2, h3]
+      · cases pen <;> norm_num [h1, h2, h3]
+    · norm_num [h1, h2]
+  · norm_num [h1]
 
 end BeyondVerif.C10
